@@ -107,14 +107,22 @@ class n0dict_(n0dict__):
             if isinstance(parent, dict):
                 if not len(parent.items()):
                     return ""
+                # a non-empty list is a repeated element: one <key> element per item,
+                # which is what the constructor (xmltodict) loads back as a list
+                items = []
                 for key, value in parent.items():
+                    if isinstance(value, (list, tuple)) and value:
+                        items.extend((key, subitm) for subitm in value)
+                    else:
+                        items.append((key, value))
+                for key, value in items:
                     # if result and (len(parent) > 2 or key not in ("Parm",)):
                     if key not in ("Parm","ParmCode","Value"):
                         if result:
                             result += "\n"
                         result += f"{' '*indent}"
 
-                    if isinstance(value, (list, tuple)):
+                    if isinstance(value, (list, tuple)):  # an empty list, or a list nested directly in a list
                         if not value:
                             result += f"<{key}/>"
                         else:
